@@ -97,6 +97,9 @@ func c16Line(work, line string, lineNo, slots int) {
 		skipG              hermes.GlobalVarsMain
 		skipN              hermes.NitroSharedVars
 		haveSkip           bool
+		tEinte, tNtil, tS  int
+		tE                 int
+		tHave              bool
 		last               jobj
 		days               int
 	)
@@ -188,6 +191,11 @@ func c16Line(work, line string, lineNo, slots int) {
 				}
 			}
 			akfN, ztdgK = k, g.ZTDG[k]
+			tHave = false
+			if subd == 1 && g.NTIL.Index+1 < 200 {
+				// state the tillage block of nitro.go:231-281 works on (SAAT/ERNTE of the current entry after the day's crop growth)
+				tEinte, tNtil, tS, tE, tHave = g.EINTE[g.NTIL.Index+1], g.NTIL.Index, g.SAAT[k], g.ERNTE[k], true
+			}
 			afHave, havePre = false, false
 			haveSkip = false
 			if subd == 1 && k >= 1 && zeit == g.ERNTE[k] && g.AUTOMAN && g.SAAT2[k+1] <= zeit && g.ODU[k] == 1 && g.ORGTIME[k] == "H" {
@@ -237,6 +245,11 @@ func c16Line(work, line string, lineNo, slots int) {
 				}
 			}
 		case "nitro":
+			if tHave && g.AKF.Index-akfN < 2 && (tEinte != 0 || g.EINTE[tNtil+1] != 0) &&
+				(g.EINTE[tNtil+1] != tEinte || g.NTIL.Index != tNtil || zeit >= tEinte-1 && zeit <= tEinte+1) {
+				emit(jobj{"k": "till", "line": lineNo, "zeit": zeit, "saat": tS, "ernte": tE, "einte": tEinte, "autohar": g.AUTOHAR,
+					"einte_after": g.EINTE[tNtil+1], "fired": g.NTIL.Index != tNtil, "depth": hx(g.EINT[tNtil])})
+			}
 			if g.AKF.Index != akfN {
 				kk := akfN
 				o := jobj{"k": "harv", "line": lineNo, "zeit": zeit, "subd": subd, "akf": kk, "adv": g.AKF.Index - kk,
